@@ -990,4 +990,468 @@ theorem run_cons (g : Tg Int) (op : TgOp) (ops : List TgOp) :
     run g (op :: ops) = run (match step g op with | .ok g' => g' | .error _ => g) ops := by
   simp only [run]; cases step g op <;> rfl
 
+/-! ## C12, part 2: textgrid-level crop / eraseRegion / insertSpace / editTimestamps
+
+### every tier-level operation keeps the tier's name -/
+
+theorem bind_ok {β γ} {x : Except Err β} {f : β → Except Err γ} {y : γ} (h : x >>= f = .ok y) :
+    ∃ z, x = .ok z ∧ f z = .ok y := by
+  cases x with
+  | error e => cases h
+  | ok z => exact ⟨z, rfl, h⟩
+
+theorem pure_ok {β} {x y : β} (h : (pure x : Except Err β) = .ok y) : x = y := Except.ok.inj h
+
+theorem ITier.new_name {t t' : ITier Int} {n : Option String} {es : Option (List (Iv Int))} {lo hi : Option Int}
+    (h : t.new n es lo hi = .ok t') : t'.name = n.getD t.name := mkITier_name h
+
+theorem PTier.new_name {t t' : PTier Int} {n : Option String} {ps : Option (List (Pt Int))} {lo hi : Option Int}
+    (h : t.new n ps lo hi = .ok t') : t'.name = n.getD t.name := mkPTier_name h
+
+theorem ITier.crop_name {t t' : ITier Int} {a b : Int} {m : CropMode} {r : Bool}
+    (h : t.crop a b m r = .ok t') : t'.name = t.name := by
+  unfold ITier.crop at h
+  split at h
+  · cases h
+  · simp only at h
+    split at h <;> exact mkITier_name h
+
+theorem PTier.crop_name {t t' : PTier Int} {a b : Int} {r : Bool}
+    (h : t.crop a b r = .ok t') : t'.name = t.name := by
+  unfold PTier.crop at h
+  split at h
+  · cases h
+  · simp only at h
+    split at h <;> exact mkPTier_name h
+
+theorem insertEntry_name {t t' : ITier Int} {x : Iv Int} {m : InsMode}
+    (h : t.insertEntry x m = .ok t') : t'.name = t.name := by
+  unfold ITier.insertEntry at h
+  simp only [bind, Except.bind, pure, Except.pure, throw, throwThe, MonadExceptOf.throw] at h
+  repeat' split at h
+  all_goals first | (cases h; done) | (cases h; rfl)
+
+theorem eraseCore_name {nt r : ITier Int} {ml : List (Iv Int)} {a b : Int} {mode : EraseMode}
+    (h : eraseCore nt ml a b mode = .ok r) : r.name = nt.name := by
+  unfold eraseCore at h
+  simp only [bind, Except.bind, pure, Except.pure, throw, throwThe, MonadExceptOf.throw] at h
+  repeat' split at h
+  all_goals first
+    | (cases h; done)
+    | (cases h; rfl)
+    | (rename_i v1 hq1 _ _ v hq; cases h; rw [insertEntry_name hq, insertEntry_name hq1]; done)
+    | (rename_i hq _; cases h; rw [insertEntry_name hq]; done)
+    | (rename_i hq; cases h; rw [insertEntry_name hq]; done)
+
+theorem ITier.eraseRegion_name {t t' : ITier Int} {a b : Int} {m : EraseMode} {sh : Bool}
+    (h : t.eraseRegion a b m sh = .ok t') : t'.name = t.name := by
+  unfold ITier.eraseRegion at h
+  simp only [bind, Except.bind, pure, Except.pure] at h
+  repeat' split at h
+  all_goals first
+    | (cases h; done)
+    | (rename_i hn _ _ hc _; rw [shrinkStep] at h
+       rw [ITier.new_name h, eraseCore_name hc, ITier.new_name hn]; rfl)
+    | (rename_i hn _ _ hc _; cases h; rw [eraseCore_name hc, ITier.new_name hn]; rfl)
+
+theorem PTier.eraseRegion_name {t t' : PTier Int} {a b : Int} {sh : Bool}
+    (h : t.eraseRegion a b sh = .ok t') : t'.name = t.name := by
+  unfold PTier.eraseRegion at h
+  simp only [bind, Except.bind, pure, Except.pure] at h
+  repeat' split at h
+  all_goals first
+    | (cases h; done)
+    | (rename_i hn _ _ _ _ _ _ _; rw [PTier.new_name h]; exact PTier.new_name hn)
+    | (rename_i hn _ _ _ _ _ _ _; cases h; exact PTier.new_name hn)
+
+theorem ITier.insertSpace_name {t t' : ITier Int} {s d : Int} {m : SpaceMode}
+    (h : t.insertSpace s d m = .ok t') : t'.name = t.name := by
+  unfold ITier.insertSpace at h
+  split at h
+  · cases h
+  · exact ITier.new_name h
+
+theorem PTier.insertSpace_name {t t' : PTier Int} {s d : Int}
+    (h : t.insertSpace s d = .ok t') : t'.name = t.name := PTier.new_name h
+
+theorem ITier.editTimestamps_name {t t' : ITier Int} {o : Int} {rep : Report}
+    (h : t.editTimestamps o rep = .ok t') : t'.name = t.name := by
+  unfold ITier.editTimestamps at h
+  simp only at h
+  split at h
+  · cases h
+  · exact mkITier_name h
+
+theorem PTier.editTimestamps_name {t t' : PTier Int} {o : Int} {rep : Report}
+    (h : t.editTimestamps o rep = .ok t') : t'.name = t.name := by
+  unfold PTier.editTimestamps at h
+  simp only at h
+  split at h
+  · cases h
+  · exact mkPTier_name h
+
+theorem AnyTier.crop_name {t t' : AnyTier Int} {a b : Int} {m : CropMode} {r : Bool}
+    (h : t.crop a b m r = .ok t') : t'.name = t.name ∧ t'.isInterval = t.isInterval := by
+  cases t with
+  | I t => obtain ⟨z, hz, rfl⟩ := map_ok h; exact ⟨ITier.crop_name hz, rfl⟩
+  | P t => obtain ⟨z, hz, rfl⟩ := map_ok h; exact ⟨PTier.crop_name hz, rfl⟩
+
+theorem AnyTier.eraseRegion_name {t t' : AnyTier Int} {a b : Int} {m : EraseMode} {sh : Bool}
+    (h : t.eraseRegion a b m sh = .ok t') : t'.name = t.name ∧ t'.isInterval = t.isInterval := by
+  cases t with
+  | I t => obtain ⟨z, hz, rfl⟩ := map_ok h; exact ⟨ITier.eraseRegion_name hz, rfl⟩
+  | P t => obtain ⟨z, hz, rfl⟩ := map_ok h; exact ⟨PTier.eraseRegion_name hz, rfl⟩
+
+theorem AnyTier.insertSpace_name {t t' : AnyTier Int} {s d : Int} {m : SpaceMode}
+    (h : t.insertSpace s d m = .ok t') : t'.name = t.name ∧ t'.isInterval = t.isInterval := by
+  cases t with
+  | I t => obtain ⟨z, hz, rfl⟩ := map_ok h; exact ⟨ITier.insertSpace_name hz, rfl⟩
+  | P t => obtain ⟨z, hz, rfl⟩ := map_ok h; exact ⟨PTier.insertSpace_name hz, rfl⟩
+
+theorem AnyTier.editTimestamps_name {t t' : AnyTier Int} {o : Int} {rep : Report}
+    (h : t.editTimestamps o rep = .ok t') : t'.name = t.name ∧ t'.isInterval = t.isInterval := by
+  cases t with
+  | I t => obtain ⟨z, hz, rfl⟩ := map_ok h; exact ⟨ITier.editTimestamps_name hz, rfl⟩
+  | P t => obtain ⟨z, hz, rfl⟩ := map_ok h; exact ⟨PTier.editTimestamps_name hz, rfl⟩
+
+/-! ### folding `addTier` over per-tier results -/
+
+/-- the loop `for tier in tiers: newTG.addTier(f(tier))`: if it succeeds, every `f(tier)` succeeded and the
+results were appended in order -/
+theorem foldlM_addTier (f : AnyTier Int → Except Err (AnyTier Int)) (rep : Report) :
+    ∀ (l : List (AnyTier Int)) (acc g' : Tg Int),
+      l.foldlM (fun acc t => do let t' ← f t; acc.addTier t' none rep) acc = .ok g' →
+      ∃ ts, l.mapM f = .ok ts ∧ g'.tiers = acc.tiers ++ ts ∧
+        (l ≠ [] → ∃ lo hi, g'.lo = some lo ∧ g'.hi = some hi) ∧ (l = [] → g' = acc) := by
+  intro l
+  induction l with
+  | nil =>
+    intro acc g' h
+    have : acc = g' := pure_ok h
+    subst this
+    exact ⟨[], rfl, by simp, by simp, fun _ => rfl⟩
+  | cons a l ih =>
+    intro acc g' h
+    rw [List.foldlM_cons] at h
+    obtain ⟨acc1, h1, h2⟩ := bind_ok h
+    obtain ⟨t', h3, h4⟩ := bind_ok h1
+    obtain ⟨ts, e1, e2, e3, e4⟩ := ih acc1 g' h2
+    obtain ⟨_, _, rfl⟩ := addTier_inv h4
+    refine ⟨t' :: ts, ?_, ?_, ?_, by simp⟩
+    · rw [List.mapM_cons, h3, e1]; rfl
+    · rw [e2]; simp [insAt]
+    · intro _
+      by_cases hl : l = []
+      · rw [e4 hl]; exact ⟨_, _, rfl, rfl⟩
+      · exact e3 hl
+
+/-- conversely: with pairwise different names, a name-preserving `f` that succeeds on every tier, and a reporting
+mode other than "error", the loop succeeds -/
+theorem foldlM_addTier_ok (f : AnyTier Int → Except Err (AnyTier Int)) (rep : Report) (hrep : rep ≠ .error)
+    (hf : ∀ t t', f t = .ok t' → t'.name = t.name) :
+    ∀ (l ts : List (AnyTier Int)) (acc : Tg Int), (acc.names ++ namesOf l).Nodup → l.mapM f = .ok ts →
+      ∃ g', l.foldlM (fun acc t => do let t' ← f t; acc.addTier t' none rep) acc = .ok g' := by
+  intro l
+  induction l with
+  | nil => intro ts acc _ _; exact ⟨acc, rfl⟩
+  | cons a l ih =>
+    intro ts acc hnd hm
+    rw [List.mapM_cons] at hm
+    obtain ⟨t', h1, hm⟩ := bind_ok hm
+    obtain ⟨ts', h2, _⟩ := bind_ok hm
+    have hn : t'.name = a.name := hf a t' h1
+    have hfresh : t'.name ∉ acc.names := by
+      rw [hn]; intro hmem
+      have := (List.nodup_append.1 hnd).2.2 _ hmem a.name (by simp [namesOf])
+      exact this rfl
+    rw [List.foldlM_cons]
+    have hadd := addTier_fresh acc t' none rep hfresh
+    rw [if_neg (fun h => hrep h.1)] at hadd
+    have : (do let t' ← f a; acc.addTier t' none rep) = .ok ⟨insAt acc.tiers none t', some (widenLo acc.lo t'.lo), some (widenHi acc.hi t'.hi)⟩ := by
+      rw [h1]; exact hadd
+    rw [this]
+    apply ih ts' _ _ h2
+    show (namesOf (acc.tiers ++ [t']) ++ namesOf l).Nodup
+    have : namesOf (acc.tiers ++ [t']) ++ namesOf l = acc.names ++ namesOf (a :: l) := by
+      simp [namesOf, Tg.names, hn]
+    rw [this]; exact hnd
+
+theorem mapM_names (f : AnyTier Int → Except Err (AnyTier Int))
+    (hf : ∀ t t', f t = .ok t' → t'.name = t.name ∧ t'.isInterval = t.isInterval) :
+    ∀ (l ts : List (AnyTier Int)), l.mapM f = .ok ts →
+      namesOf ts = namesOf l ∧ ts.map (·.isInterval) = l.map (·.isInterval) := by
+  intro l
+  induction l with
+  | nil => intro ts h; have : [] = ts := pure_ok h; subst this; exact ⟨rfl, rfl⟩
+  | cons a l ih =>
+    intro ts h
+    rw [List.mapM_cons] at h
+    obtain ⟨t', h1, h⟩ := bind_ok h
+    obtain ⟨ts', h2, h⟩ := bind_ok h
+    have : t' :: ts' = ts := pure_ok h
+    subst this
+    obtain ⟨e1, e2⟩ := ih ts' h2
+    simp only [namesOf] at e1
+    simp [namesOf, (hf a t' h1).1, (hf a t' h1).2, e1, e2]
+
+/-- position by position: `ts[i] = f(l[i])` -/
+theorem mapM_getElem (f : AnyTier Int → Except Err (AnyTier Int)) :
+    ∀ (l ts : List (AnyTier Int)), l.mapM f = .ok ts →
+      ts.length = l.length ∧ ∀ (i : Nat) (t : AnyTier Int), l[i]? = some t → ∃ t', ts[i]? = some t' ∧ f t = .ok t' := by
+  intro l
+  induction l with
+  | nil => intro ts h; have : [] = ts := pure_ok h; subst this; exact ⟨rfl, by simp⟩
+  | cons a l ih =>
+    intro ts h
+    rw [List.mapM_cons] at h
+    obtain ⟨t', h1, h⟩ := bind_ok h
+    obtain ⟨ts', h2, h⟩ := bind_ok h
+    have : t' :: ts' = ts := pure_ok h
+    subst this
+    obtain ⟨e1, e2⟩ := ih ts' h2
+    refine ⟨by simp [e1], ?_⟩
+    intro i t hi
+    cases i with
+    | zero => simp at hi; subst hi; exact ⟨t', rfl, h1⟩
+    | succ i => simpa using e2 i t (by simpa using hi)
+
+/-! ### (7) the four textgrid-level operations -/
+
+/-- the per-tier step of `Textgrid.editTimestamps`: empty tiers are passed through untouched -/
+def editOne (o : Int) (rep : Report) (t : AnyTier Int) : Except Err (AnyTier Int) :=
+  if t.isEmpty then pure t else t.editTimestamps o rep
+
+theorem editOne_name {o : Int} {rep : Report} {t t' : AnyTier Int} (h : editOne o rep t = .ok t') :
+    t'.name = t.name ∧ t'.isInterval = t.isInterval := by
+  unfold editOne at h
+  split at h
+  · rw [← pure_ok h]; exact ⟨rfl, rfl⟩
+  · exact AnyTier.editTimestamps_name h
+
+theorem editTimestamps_eq (g : Tg Int) (o : Int) (rep : Report) :
+    g.editTimestamps o rep =
+      g.tiers.foldlM (fun acc t => do let t' ← editOne o rep t; acc.addTier t' none rep) (Tg.ofSpan g.lo g.hi) := by
+  unfold Tg.editTimestamps
+  congr 1
+  funext acc t
+  unfold editOne
+  split <;> rfl
+
+theorem crop_tiers {g g' : Tg Int} {a b : Int} {m : CropMode} {r : Bool} (h : g.crop a b m r = .ok g') :
+    ∃ ts, g.tiers.mapM (·.crop a b m r) = .ok ts ∧ g'.tiers = ts := by
+  unfold Tg.crop at h
+  split at h
+  · cases h
+  · obtain ⟨ts, e1, e2, _⟩ := foldlM_addTier (·.crop a b m r) _ _ _ _ h
+    refine ⟨ts, e1, ?_⟩
+    rw [e2]; cases r <;> rfl
+
+theorem eraseRegion_tiers {g g' : Tg Int} {a b : Int} {sh : Bool} (h : g.eraseRegion a b sh = .ok g') :
+    ∃ ts, g.tiers.mapM (·.eraseRegion a b .truncate sh) = .ok ts ∧ g'.tiers = ts ∧
+      g'.hi = (if sh then g.hi.map (shiftBack a b) else g.hi) := by
+  unfold Tg.eraseRegion at h
+  split at h
+  · cases h
+  · obtain ⟨g1, h1, h2⟩ := bind_ok h
+    obtain ⟨ts, e1, e2, _⟩ := foldlM_addTier (·.eraseRegion a b .truncate sh) _ _ _ _ h1
+    have := pure_ok h2
+    subst this
+    exact ⟨ts, e1, by rw [e2]; rfl, rfl⟩
+
+theorem insertSpace_tiers {g g' : Tg Int} {s d : Int} {m : SpaceMode} (h : g.insertSpace s d m = .ok g') :
+    ∃ ts, g.tiers.mapM (·.insertSpace s d m) = .ok ts ∧ g'.tiers = ts := by
+  unfold Tg.insertSpace at h
+  obtain ⟨ts, e1, e2, _⟩ := foldlM_addTier (·.insertSpace s d m) _ _ _ _ h
+  exact ⟨ts, e1, by rw [e2]; rfl⟩
+
+theorem editTimestamps_tiers {g g' : Tg Int} {o : Int} {rep : Report} (h : g.editTimestamps o rep = .ok g') :
+    ∃ ts, g.tiers.mapM (editOne o rep) = .ok ts ∧ g'.tiers = ts := by
+  rw [editTimestamps_eq] at h
+  obtain ⟨ts, e1, e2, _⟩ := foldlM_addTier (editOne o rep) _ _ _ _ h
+  exact ⟨ts, e1, by rw [e2]; rfl⟩
+
+/-- **tiers**: the result's tier list is the tier-level operation applied to each tier, in order
+(`mapM_getElem` reads this position by position) -/
+theorem tgop_tiers (g g' : Tg Int) :
+    (∀ a b m r, g.crop a b m r = .ok g' → g.tiers.mapM (·.crop a b m r) = .ok g'.tiers) ∧
+    (∀ a b sh, g.eraseRegion a b sh = .ok g' → g.tiers.mapM (·.eraseRegion a b .truncate sh) = .ok g'.tiers) ∧
+    (∀ s d m, g.insertSpace s d m = .ok g' → g.tiers.mapM (·.insertSpace s d m) = .ok g'.tiers) ∧
+    (∀ o rep, g.editTimestamps o rep = .ok g' → g.tiers.mapM (editOne o rep) = .ok g'.tiers) := by
+  refine ⟨?_, ?_, ?_, ?_⟩
+  · intro a b m r h; obtain ⟨ts, e1, e2⟩ := crop_tiers h; rw [e2]; exact e1
+  · intro a b sh h; obtain ⟨ts, e1, e2, _⟩ := eraseRegion_tiers h; rw [e2]; exact e1
+  · intro s d m h; obtain ⟨ts, e1, e2⟩ := insertSpace_tiers h; rw [e2]; exact e1
+  · intro o rep h; obtain ⟨ts, e1, e2⟩ := editTimestamps_tiers h; rw [e2]; exact e1
+
+/-- **names**: same names in the same order (and the same tier classes); no hypothesis on `g` is needed -/
+theorem tgop_names (g g' : Tg Int) :
+    (∀ a b m r, g.crop a b m r = .ok g' →
+      g'.names = g.names ∧ g'.tiers.map (·.isInterval) = g.tiers.map (·.isInterval)) ∧
+    (∀ a b sh, g.eraseRegion a b sh = .ok g' →
+      g'.names = g.names ∧ g'.tiers.map (·.isInterval) = g.tiers.map (·.isInterval)) ∧
+    (∀ s d m, g.insertSpace s d m = .ok g' →
+      g'.names = g.names ∧ g'.tiers.map (·.isInterval) = g.tiers.map (·.isInterval)) ∧
+    (∀ o rep, g.editTimestamps o rep = .ok g' →
+      g'.names = g.names ∧ g'.tiers.map (·.isInterval) = g.tiers.map (·.isInterval)) := by
+  obtain ⟨h1, h2, h3, h4⟩ := tgop_tiers g g'
+  refine ⟨?_, ?_, ?_, ?_⟩
+  · intro a b m r h
+    exact mapM_names _ (fun _ _ => AnyTier.crop_name) _ _ (h1 a b m r h)
+  · intro a b sh h
+    exact mapM_names _ (fun _ _ => AnyTier.eraseRegion_name) _ _ (h2 a b sh h)
+  · intro s d m h
+    exact mapM_names _ (fun _ _ => AnyTier.insertSpace_name) _ _ (h3 s d m h)
+  · intro o rep h
+    exact mapM_names _ (fun _ _ => editOne_name) _ _ (h4 o rep h)
+
+/-- **success**: on pairwise different names the textgrid-level operation succeeds as soon as the arguments are
+admissible and every tier-level operation does (for `editTimestamps`: unless reportingMode = "error") -/
+theorem tgop_ok (g : Tg Int) (hnd : g.names.Nodup) (ts : List (AnyTier Int)) :
+    (∀ a b m r, a < b → g.tiers.mapM (·.crop a b m r) = .ok ts → ∃ g', g.crop a b m r = .ok g' ∧ g'.tiers = ts) ∧
+    (∀ a b sh, a < b → g.tiers.mapM (·.eraseRegion a b .truncate sh) = .ok ts →
+      ∃ g', g.eraseRegion a b sh = .ok g' ∧ g'.tiers = ts) ∧
+    (∀ s d m, g.tiers.mapM (·.insertSpace s d m) = .ok ts → ∃ g', g.insertSpace s d m = .ok g' ∧ g'.tiers = ts) ∧
+    (∀ o rep, rep ≠ .error → g.tiers.mapM (editOne o rep) = .ok ts →
+      ∃ g', g.editTimestamps o rep = .ok g' ∧ g'.tiers = ts) := by
+  have hnd' : ∀ lo hi, ((Tg.ofSpan lo hi : Tg Int).names ++ namesOf g.tiers).Nodup := by
+    intro lo hi; exact hnd
+  refine ⟨?_, ?_, ?_, ?_⟩
+  · intro a b m r hab hm
+    have hrep : (if m = .lax then Report.silence else Report.warning) ≠ .error := by split <;> simp
+    have hg0 : ((if r = true then Tg.ofSpan (some (Tm.zero : Int)) (some (b - a)) else Tg.ofSpan (some a) (some b) : Tg Int).names
+        ++ namesOf g.tiers).Nodup := by split <;> exact hnd' _ _
+    obtain ⟨g', hg'⟩ := foldlM_addTier_ok (·.crop a b m r) _ hrep (fun _ _ h => (AnyTier.crop_name h).1) _ ts _ hg0 hm
+    have : g.crop a b m r = .ok g' := by
+      unfold Tg.crop; rw [if_neg (by omega)]; exact hg'
+    obtain ⟨ts', e1, e2⟩ := crop_tiers this
+    rw [hm] at e1; cases e1
+    exact ⟨g', this, e2⟩
+  · intro a b sh hab hm
+    obtain ⟨g1, hg1⟩ := foldlM_addTier_ok (·.eraseRegion a b .truncate sh) .warning (by simp)
+      (fun _ _ h => (AnyTier.eraseRegion_name h).1) _ ts _ (hnd' g.lo g.hi) hm
+    have : g.eraseRegion a b sh = .ok { g1 with hi := if sh then g.hi.map (shiftBack a b) else g.hi } := by
+      unfold Tg.eraseRegion; rw [if_neg (by omega)]
+      simp only [bind, Except.bind] at hg1 ⊢
+      rw [hg1]; rfl
+    obtain ⟨ts', e1, e2, _⟩ := eraseRegion_tiers this
+    rw [hm] at e1; cases e1
+    exact ⟨_, this, e2⟩
+  · intro s d m hm
+    obtain ⟨g', hg'⟩ := foldlM_addTier_ok (·.insertSpace s d m) .warning (by simp)
+      (fun _ _ h => (AnyTier.insertSpace_name h).1) _ ts _ (hnd' g.lo (g.hi.map (· + d))) hm
+    have : g.insertSpace s d m = .ok g' := hg'
+    obtain ⟨ts', e1, e2⟩ := insertSpace_tiers this
+    rw [hm] at e1; cases e1
+    exact ⟨g', this, e2⟩
+  · intro o rep hrep hm
+    obtain ⟨g', hg'⟩ := foldlM_addTier_ok (editOne o rep) rep hrep
+      (fun _ _ h => (editOne_name h).1) _ ts _ (hnd' g.lo g.hi) hm
+    have : g.editTimestamps o rep = .ok g' := by rw [editTimestamps_eq]; exact hg'
+    obtain ⟨ts', e1, e2⟩ := editTimestamps_tiers this
+    rw [hm] at e1; cases e1
+    exact ⟨g', this, e2⟩
+
+/-! ### mergeTiers -/
+
+def fuseI : List (ITier Int) → Except Err (Option (ITier Int))
+  | [] => pure none
+  | f :: rest => some <$> rest.foldlM (fun acc t => acc.union t) f
+
+def fuseP : List (PTier Int) → Except Err (Option (PTier Int))
+  | [] => pure none
+  | f :: rest => some <$> rest.foldlM (fun acc t => acc.union t) f
+
+def asI : AnyTier Int → Option (ITier Int) | .I t => some t | .P _ => none
+def asP : AnyTier Int → Option (PTier Int) | .P t => some t | .I _ => none
+
+/-- the unselected tiers, in order, when `preserveOtherTiers` -/
+def keepTiers (g : Tg Int) (selNames : List String) : Bool → Except Err (Tg Int)
+  | true => (g.tiers.filter fun t => !selNames.contains t.name).foldlM
+      (fun acc t => acc.addTier t none .warning) (Tg.ofSpan g.lo g.hi)
+  | false => pure (Tg.ofSpan g.lo g.hi)
+
+def addOpt (g : Tg Int) : Option (AnyTier Int) → Except Err (Tg Int)
+  | none => pure g
+  | some t => g.addTier t none .warning
+
+/-- what `mergeTiers` does once the two fused tiers are known: optionally keep the unselected tiers, then add the
+fused interval tier, then the fused point tier -/
+def mergeRest (g : Tg Int) (selNames : List String) (preserve : Bool)
+    (it : Option (ITier Int)) (pt : Option (PTier Int)) : Except Err (Tg Int) :=
+  keepTiers g selNames preserve >>= fun g1 =>
+  addOpt g1 (it.map AnyTier.I) >>= fun g2 =>
+  addOpt g2 (pt.map AnyTier.P)
+
+theorem mapM_pure_id (l : List (AnyTier Int)) : l.mapM (pure : AnyTier Int → Except Err (AnyTier Int)) = .ok l := by
+  induction l with
+  | nil => rfl
+  | cons a l ih => rw [List.mapM_cons, ih]; rfl
+
+theorem addOpt_tiers {g g' : Tg Int} {o : Option (AnyTier Int)} (h : addOpt g o = .ok g') :
+    g'.tiers = g.tiers ++ o.toList := by
+  cases o with
+  | none => rw [← pure_ok h]; simp
+  | some t =>
+    have h : g.addTier t none .warning = .ok g' := h
+    obtain ⟨_, _, rfl⟩ := addTier_inv h; rfl
+
+theorem mergeRest_tiers {g g' : Tg Int} {sn : List String} {preserve : Bool}
+    {it : Option (ITier Int)} {pt : Option (PTier Int)} (h : mergeRest g sn preserve it pt = .ok g') :
+    g'.tiers = (if preserve then g.tiers.filter (fun t => !sn.contains t.name) else [])
+        ++ (it.map AnyTier.I).toList ++ (pt.map AnyTier.P).toList := by
+  unfold mergeRest at h
+  obtain ⟨g1, h1, h⟩ := bind_ok h
+  obtain ⟨g2, h2, h⟩ := bind_ok h
+  have e1 : g1.tiers = (if preserve then g.tiers.filter (fun t => !sn.contains t.name) else []) := by
+    cases preserve with
+    | false => rw [← pure_ok h1]; rfl
+    | true =>
+      obtain ⟨ts, e1, e2, _⟩ := foldlM_addTier pure .warning _ _ _ h1
+      rw [mapM_pure_id] at e1; cases e1
+      rw [e2]; rfl
+  rw [addOpt_tiers h, addOpt_tiers h2, e1]
+
+/-- `mergeTiers`: the selected tiers are looked up by name (a missing name is a `KeyError`), the interval tiers among
+them are fused left to right by `union`, likewise the point tiers; the result lists the unselected tiers (if kept) in
+their old order, then the fused interval tier, then the fused point tier -/
+theorem mergeTiers_spec {g g' : Tg Int} {sel : Option (List String)} {preserve : Bool}
+    (h : g.mergeTiers sel preserve = .ok g') :
+    ∃ selTiers it pt,
+      (sel.getD g.names).mapM g.getTier = .ok selTiers ∧
+      fuseI (selTiers.filterMap asI) = .ok it ∧
+      fuseP (selTiers.filterMap asP) = .ok pt ∧
+      g'.tiers = (if preserve then g.tiers.filter (fun t => !(sel.getD g.names).contains t.name) else [])
+        ++ (it.map AnyTier.I).toList ++ (pt.map AnyTier.P).toList := by
+  unfold Tg.mergeTiers at h
+  simp only at h
+  obtain ⟨selTiers, h1, h⟩ := bind_ok h
+  generalize hI : (List.filterMap _ selTiers : List (ITier Int)) = li at h
+  generalize hP : (List.filterMap _ selTiers : List (PTier Int)) = lp at h
+  have hI' : selTiers.filterMap asI = li := by
+    rw [← hI]; congr 1; funext x; cases x <;> rfl
+  have hP' : selTiers.filterMap asP = lp := by
+    rw [← hP]; congr 1; funext x; cases x <;> rfl
+  refine ⟨selTiers, ?_⟩
+  rw [hI', hP']
+  suffices ∃ it pt, fuseI li = .ok it ∧ fuseP lp = .ok pt ∧ mergeRest g (sel.getD g.names) preserve it pt = .ok g' by
+    obtain ⟨it, pt, a1, a2, a3⟩ := this
+    exact ⟨it, pt, h1, a1, a2, mergeRest_tiers a3⟩
+  cases li with
+  | nil =>
+    cases lp with
+    | nil => exact ⟨none, none, rfl, rfl, by cases preserve <;> exact h⟩
+    | cons f rest =>
+      have h : (some <$> rest.foldlM (fun acc t => acc.union t) f) >>= _ = .ok g' := h
+      obtain ⟨pt, hp, h⟩ := bind_ok h
+      exact ⟨none, pt, rfl, hp, by cases preserve <;> cases pt <;> exact h⟩
+  | cons fi resti =>
+    have h : (some <$> resti.foldlM (fun acc t => acc.union t) fi) >>= _ = .ok g' := h
+    obtain ⟨it, hi, h⟩ := bind_ok h
+    cases lp with
+    | nil => exact ⟨it, none, hi, rfl, by cases preserve <;> cases it <;> exact h⟩
+    | cons f rest =>
+      have h : (some <$> rest.foldlM (fun acc t => acc.union t) f) >>= _ = .ok g' := h
+      obtain ⟨pt, hp, h⟩ := bind_ok h
+      exact ⟨it, pt, hi, hp, by cases preserve <;> cases it <;> cases pt <;> exact h⟩
+
 end C12
